@@ -43,8 +43,9 @@ def build(seed):
         elif r < 0.45:
             p = rnd.choice(["late1.txt", "late2.txt", "s/late3.txt"])
             if p not in fs.files and p.split("/")[0] not in fs.files:
-                fs.files[p] = "late " + p
-                ops.append({"op": "write", "path": p, "data": "late " + p})
+                # (a late file may be a COPY of a recorded one: same content, another path, both stay listed)
+                fs.files[p] = fs.files[rnd.choice(sorted(fs.files))] if fs.files and rnd.random() < 0.4 else "late " + p
+                ops.append({"op": "write", "path": p, "data": gen.enc(fs.files[p])})
     # restores: after the create that follows the damage
     for pos, p, orig in reversed(restore_after):
         nxt = next((k for k in range(pos, len(ops)) if ops[k]["op"] == "create"), None)
@@ -158,6 +159,16 @@ def run(ctx):
     for n in (127, 128, 129, 256):
         t = {"f%03d.bin" % i: "content %d" % i for i in range(n)}
         scs.insert(0, {"profile": "c18-count", "impl_only": True, "root": "root", "tree": t, "ops": [{"op": "create", "at": "", "h": ["md5"], "now": "2026-03-01 12:00:01"}, {"op": "flatten", "at": ""}, {"op": "verifypl", "at": ""}]})
+    # copies: a path recorded for the first time with the content of another recorded path, by a generation that does
+    # not list that other path (-sf), or after the other one went missing - both paths stay in the packing list
+    for variant in ("sf", "lost"):
+        ops = [{"op": "create", "at": "", "h": ["md5", "c4"], "now": "2026-03-01 12:00:01"}, {"op": "write", "path": "s/b.txt", "data": "same bytes"}]
+        if variant == "sf":
+            ops += [{"op": "create", "at": "", "h": ["md5"], "sf": ["s/b.txt"], "now": "2026-03-01 12:00:02"}]
+        else:
+            ops += [{"op": "rm", "path": "a.txt"}, {"op": "create", "at": "", "h": ["md5"], "now": "2026-03-01 12:00:02"}]
+        ops += [{"op": "flatten", "at": ""}, {"op": "verifypl", "at": ""}]
+        scs.insert(0, {"profile": "c18-copy", "root": "root", "tree": {"a.txt": "same bytes", "k.txt": "k", "s/": None}, "ops": ops})
     return _scn.run_scn(ctx, scs, monitor, extra_fails=largefiles.extra(ctx), assumptions=["histories without nested child histories and without renames (the property's domain)"])
 
 
